@@ -625,7 +625,9 @@ def documented(op, err, before):
         return False
     if k == "PruneSubtree" and err == "TypeErr":
         return op[1] == before["id"]
-    if k == "FilterLeafNodes" and err == "OtherErr":        # SeedNodeDeletionException
+    if k in ("FilterLeafNodes", "PruneLeavesWithoutTaxa", "PruneTaxa", "RetainTaxa", "PruneNodes") and err == "OtherErr":
+        # SeedNodeDeletionException (filter_leaf_nodes raises it today; the other members of the family would
+        # after the repair proposed for key prune-reaches-seed-attribute-error) or prune_nodes' explicit Exception
         return True
     if k == "RemoveChild" and err == "ValueErr":
         return op[2] not in [c["id"] for c in by[op[1]]["kids"]]
@@ -955,7 +957,9 @@ def random_case(rng, max_leaves, max_ops):
         spec["len"] = None
     rooted = rng.choice([None, True, False])
     ntaxa = n + rng.randint(0, 2)
-    return gen_history(rng, spec, rooted, ntaxa, rng.randint(1, max_ops))
+    # reseed_at / reroot_at_node at a LEAF is outside the documented domain (F19) but must still leave a
+    # well-formed tree: exercised in a third of the histories
+    return gen_history(rng, spec, rooted, ntaxa, rng.randint(1, max_ops), allow_leaf_reseed=rng.random() < 0.33)
 
 
 def probe_cases():
@@ -1120,8 +1124,10 @@ def run(tier, seed, replay=None):
     import dendropy.utility
     cases = list(probe_cases())
     if tier == "quick":
-        cases += [random_case(ctx.rng, 9, 8) for _ in range(330)]
-        cases += [random_case(ctx.rng, 30, 25) for _ in range(30)]
+        cases += [random_case(ctx.rng, 9, 8) for _ in range(700)]
+        cases += [random_case(ctx.rng, 30, 25) for _ in range(60)]
+        small = list(small_scope_cases(3, 2, ctx.rng, per_state=None))
+        cases += ctx.rng.sample(small, 1200)
     else:
         cases += [random_case(ctx.rng, 10, 10) for _ in range(4000)]
         cases += [random_case(ctx.rng, 30, 25) for _ in range(500)]
@@ -1134,11 +1140,12 @@ def run(tier, seed, replay=None):
         for o in c["ops"]:
             ctx.count(o[0])
     core.corr_stage(ctx, cases, observe, to_coq, HEADER, "case_ok", oracle=oracle, show_fn="case_run",
-                    nontrivial=nontrivial, search=search, shard=60 if tier == "quick" else 250, sample_fn=sample_fn)
+                    nontrivial=nontrivial, search=search, shard=125 if tier == "quick" else 250, sample_fn=sample_fn)
     return ctx.finish(level="proof",
                       rule="op histories on the real library with arguments drawn from the live state (all flags toggled, "
                            "rooting None/True/False, trees with polytomies/unifurcations/missing lengths/missing taxa); "
-                           "quick: 330 histories <=8 ops on <=9 leaves + 30 histories <=25 ops on <=30 leaves; thorough adds "
+                           "quick: 700 histories <=8 ops on <=9 leaves + 60 histories <=25 ops on <=30 leaves + 1200 sampled "
+                           "depth-2 histories from every shape <=3 leaves; thorough: 4000+500 random histories and "
                            "every depth-2 history over the per-state op alphabet from every shape <=4 leaves, sampled "
                            "alphabets for 5 leaves and depth 3 on <=3 leaves; pointer dump, rooting flag and exception class "
                            "compared with the model after every step; non-trivial = >=2 executed ops on a tree with >=4 nodes; "
